@@ -169,6 +169,18 @@ def RS.save (s : RS) (m : Meta) : RS :=
   else
     RS.flush { s with batch := batchPut s.batch m.id m }
 
+/-- `flush()` when the leveldb write fails: `SaveRegions` returns the error before anything is reset, so the
+    batch (and the counter) stay as they are and the next flush writes the same regions again -/
+def RS.flushFailed (s : RS) : RS := s
+
+/-- `SaveRegion` while leveldb writes fail: buffered saves do not notice; the save that fills the batch puts its
+    region into the batch, its flush fails and the error is returned (`true`), the batch stays pending -/
+def RS.saveFailed (s : RS) (m : Meta) : RS × Bool :=
+  if s.cacheSize < s.batchSize - 1 then
+    ({ s with batch := batchPut s.batch m.id m, cacheSize := s.cacheSize + 1 }, false)
+  else
+    (RS.flushFailed { s with batch := batchPut s.batch m.id m }, true)
+
 /-- `DeleteRegion` through `RegionStorage.Remove` of the repaired tree -/
 def RS.delete (s : RS) (id : Nat) : RS :=
   { s with batch := s.batch.filter (fun e => e.1 != id), ldb := kvRemove s.ldb id }
